@@ -111,7 +111,8 @@ PlaneLineOK(r) == \E c \in {[n |-> V(r.t, r.n), pos |-> V(r.t, r.pos), dir |-> V
         \* an axis-aligned normal: n.dir is then a single product, computed without rounding
         axisAligned == Cardinality({i \in 1..3 : ~D!DIsZero(c.n[i])}) = 1
     IN  IF D!DIsZero(nd) THEN (IF axisAligned THEN r.ok = 0 /\ r.okT = 0 ELSE r.ok = r.okT)     \* (a rounded n.dir need not be exactly zero)
-        ELSE IF D!DLt(and, D!Pow2(-10)) THEN r.ok = r.okT
+        ELSE IF D!DLt(and, D!Pow2(-10))               \* nearly parallel: either answer, but "true" comes with a finite point / parameter
+             THEN r.ok = r.okT /\ (r.ok = 1 => FinAll(t, r.pt)) /\ (r.okT = 1 => FinAll(t, <<r.tt>>))
         ELSE LET sc == D!DAdd(Sc(<<c.pos, c.pt>>), D!DAbs(dist))  tol == D!DMul(E(t), sc) IN
              /\ r.ok = 1 /\ r.okT = 1 /\ FinAll(t, r.pt)
              \* on the plane and on the line, up to the amplification 1 / |n.dir|
